@@ -198,3 +198,11 @@ func init() {
 		mutant{Name: "deferred-compiled-call-arguments-not-unwrapped", Prop: "C07", File: "interp/run.go", Old: "\t\t\t\tval[i+1] = fixArg(getBinValue(getMapType, v, f))\n", New: "\t\t\t\tval[i+1] = fixArg(v(f))\n", Rule: "R07.1", Key: "callBin/closure#1/arguments"},
 	)
 }
+
+func init() {
+	addMutants(
+		// round-6 seeds on C08 and C09
+		mutant{Name: "receive-status-dropped-on-the-slow-path", Prop: "C08", File: "interp/run.go", Old: "\t\t\tchosen, v, ok := reflect.Select([]reflect.SelectCase{done, {Dir: reflect.SelectRecv, Chan: ch}})\n\t\t\tif chosen == 0 {\n\t\t\t\treturn nil\n\t\t\t}\n\t\t\tresult.Set(v)\n\t\t\tstatus.SetBool(ok)\n", New: "\t\t\tchosen, v, _ := reflect.Select([]reflect.SelectCase{done, {Dir: reflect.SelectRecv, Chan: ch}})\n\t\t\tif chosen == 0 {\n\t\t\t\treturn nil\n\t\t\t}\n\t\t\tresult.Set(v)\n\t\t\tstatus.SetBool(v.IsValid())\n", Rule: "R08.10", Key: "recv2/closure#1/status#2/from-the-receive-operation"},
+		mutant{Name: "callback-wrapper-built-once-per-site", Prop: "C09", File: "interp/run.go", Old: "\t\t\t// fixes #1634, if v is already a func, then don't re-wrap\n\t\t\t// because original wrapping cloned the frame but this doesn't\n\t\t\treturn v\n\t\t}\n", New: "\t\t\t// fixes #1634, if v is already a func, then don't re-wrap\n\t\t\t// because original wrapping cloned the frame but this doesn't\n\t\t\treturn v\n\t\t}\n\t\tif rcvr == nil && !isDefer {\n\t\t\tif firstFrame == nil {\n\t\t\t\tfirstFrame = f\n\t\t\t}\n\t\t\tf = firstFrame\n\t\t}\n", Also: [][3]string{{"interp/run.go", "\tvalue := genValue(n)\n\tisDefer := false\n", "\tvalue := genValue(n)\n\tvar firstFrame *frame\n\tisDefer := false\n"}}, Rule: "R09.8", Key: "genFunctionWrapper/captured:firstFrame"},
+	)
+}
